@@ -1,6 +1,6 @@
 #!/usr/bin/env python3
 """benign.py: applies behaviour-preserving edits to a scratch copy of /repo and runs ALL checks; any alarm is a false positive."""
-import sys, os, shutil, subprocess, tempfile, json
+import sys, os, shutil, subprocess, tempfile, json, re
 V = {}
 def variant(name, *edits): V[name] = edits
 
@@ -119,6 +119,149 @@ variant("greet-reply-helper",
 		return
 	}"""),
   ("conn.go", "func (c *Conn) Server() *Server {", "func (c *Conn) ok(msg string) {\n	c.writeResponse(250, EnhancedCode{2, 0, 0}, msg)\n}\n\nfunc (c *Conn) Server() *Server {"))
+variant("lmtp-close-range-loop",
+  ("client.go", """		for expectedResponses > 0 {
+			rcpt := d.c.rcpts[len(d.c.rcpts)-expectedResponses]
+			if _, _, err""", """		for _, rcpt := range d.c.rcpts {
+			if _, _, err"""),
+  ("client.go", """			expectedResponses--
+		}
+		return firstErr""", """		}
+		return firstErr"""),
+  ("client.go", """	expectedResponses := len(d.c.rcpts)
+	if d.c.lmtp {""", """	if d.c.lmtp {"""))
+variant("mail-params-reordered",
+  ("client.go", """	if opts != nil && opts.RequireTLS {
+		if _, ok := c.ext["REQUIRETLS"]; ok {
+			sb.WriteString(" REQUIRETLS")
+		} else {
+			return errors.New("smtp: server does not support REQUIRETLS")
+		}
+	}
+	if opts != nil && opts.UTF8 {
+		if _, ok := c.ext["SMTPUTF8"]; ok {
+			sb.WriteString(" SMTPUTF8")
+		} else {
+			return errors.New("smtp: server does not support SMTPUTF8")
+		}
+	}""", """	if opts != nil && opts.UTF8 {
+		if _, ok := c.ext["SMTPUTF8"]; ok {
+			sb.WriteString(" SMTPUTF8")
+		} else {
+			return errors.New("smtp: server does not support SMTPUTF8")
+		}
+	}
+	if opts != nil && opts.RequireTLS {
+		if _, ok := c.ext["REQUIRETLS"]; !ok {
+			return errors.New("smtp: server does not support REQUIRETLS")
+		}
+		sb.WriteString(" REQUIRETLS")
+	}"""))
+variant("handlemail-session-local",
+  ("conn.go", """	if err := c.Session().Mail(from, opts); err != nil {
+		c.writeError(451, EnhancedCode{4, 0, 0}, err)
+		return
+	}""", """	sess := c.Session()
+	err = sess.Mail(from, opts)
+	if err != nil {
+		c.writeError(451, EnhancedCode{4, 0, 0}, err)
+		return
+	}"""))
+variant("rcptmax-check-first",
+  ("conn.go", """	p := parser{s: strings.TrimSpace(arg)}
+	recipient, err := p.parsePath()
+	if err != nil {
+		c.writeResponse(501, EnhancedCode{5, 5, 2}, "Was expecting RCPT arg syntax of TO:<address>")
+		return
+	}
+
+	if c.server.MaxRecipients > 0 && len(c.recipients) >= c.server.MaxRecipients {
+		c.writeResponse(452, EnhancedCode{4, 5, 3}, fmt.Sprintf("Maximum limit of %v recipients reached", c.server.MaxRecipients))
+		return
+	}
+""", """	if max := c.server.MaxRecipients; max > 0 && len(c.recipients) >= max {
+		c.writeResponse(452, EnhancedCode{4, 5, 3}, fmt.Sprintf("Maximum limit of %v recipients reached", max))
+		return
+	}
+
+	p := parser{s: strings.TrimSpace(arg)}
+	recipient, err := p.parsePath()
+	if err != nil {
+		c.writeResponse(501, EnhancedCode{5, 5, 2}, "Was expecting RCPT arg syntax of TO:<address>")
+		return
+	}
+"""))
+variant("serve-backoff-helper",
+  ("server.go", """				if tempDelay == 0 {
+					tempDelay = 5 * time.Millisecond
+				} else {
+					tempDelay *= 2
+				}
+				if max := 1 * time.Second; tempDelay > max {
+					tempDelay = max
+				}""", """				tempDelay = nextDelay(tempDelay)"""),
+  ("server.go", "func (s *Server) handleConn(c *Conn) error {", "func nextDelay(d time.Duration) time.Duration {\n	if d == 0 {\n		return 5 * time.Millisecond\n	}\n	d *= 2\n	if max := 1 * time.Second; d > max {\n		d = max\n	}\n	return d\n}\n\nfunc (s *Server) handleConn(c *Conn) error {"))
+variant("auth-error-helper",
+  ("conn.go", """	sasl, err := c.auth(mechanism)
+	if err != nil {
+		c.writeError(454, EnhancedCode{4, 7, 0}, err)
+		return
+	}""", """	sasl, err := c.auth(mechanism)
+	if err != nil {
+		c.authFailed(err)
+		return
+	}"""),
+  ("conn.go", """			challenge, done, err := sasl.Next(response)
+			if err != nil {
+				c.writeError(454, EnhancedCode{4, 7, 0}, err)
+				return
+			}""".replace("			challenge","		challenge").replace("			if err","		if err").replace("				c.write","			c.write").replace("				return","			return").replace("			}","		}"), """		challenge, done, err := sasl.Next(response)
+		if err != nil {
+			c.authFailed(err)
+			return
+		}"""),
+  ("conn.go", "func (c *Conn) Server() *Server {", "func (c *Conn) authFailed(err error) {\n	c.writeError(454, EnhancedCode{4, 7, 0}, err)\n}\n\nfunc (c *Conn) Server() *Server {"))
+variant("close-switch-on-error",
+  ("server.go", """			if err == io.EOF || errors.Is(err, net.ErrClosed) {
+				return nil
+			}
+			if err == ErrTooLongLine {
+				c.writeResponse(500, EnhancedCode{5, 4, 0}, "Too long line, closing connection")
+				return nil
+			}
+""", """			switch {
+			case err == io.EOF || errors.Is(err, net.ErrClosed):
+				return nil
+			case err == ErrTooLongLine:
+				c.writeResponse(500, EnhancedCode{5, 4, 0}, "Too long line, closing connection")
+				return nil
+			}
+"""))
+variant("size-helper-correct",
+  ("conn.go", """			size, err := strconv.ParseUint(value, 10, 32)
+			if err != nil {
+				c.writeResponse(501, EnhancedCode{5, 5, 4}, "Unable to parse SIZE as an integer")
+				return
+			}
+
+			if c.server.MaxMessageBytes > 0 && int64(size) > c.server.MaxMessageBytes {
+				c.writeResponse(552, EnhancedCode{5, 3, 4}, "Max message size exceeded")
+				return
+			}
+
+			opts.Size = int64(size)""", """			size, err := parseSizeParam(value)
+			if err != nil {
+				c.writeResponse(501, EnhancedCode{5, 5, 4}, "Unable to parse SIZE as an integer")
+				return
+			}
+
+			if c.server.MaxMessageBytes > 0 && size > c.server.MaxMessageBytes {
+				c.writeResponse(552, EnhancedCode{5, 3, 4}, "Max message size exceeded")
+				return
+			}
+
+			opts.Size = size"""),
+  ("conn.go", "func (c *Conn) Server() *Server {", "func parseSizeParam(value string) (int64, error) {\n	size, err := strconv.ParseUint(value, 10, 32)\n	if err != nil {\n		return 0, err\n	}\n	return int64(size), nil\n}\n\nfunc (c *Conn) Server() *Server {"))
 names = sys.argv[1:] or list(V)
 env = dict(os.environ, GOFLAGS='-mod=mod', GOPROXY='off', GOSUMDB='off', GOTOOLCHAIN='local')
 for name in names:
@@ -139,13 +282,14 @@ for name in names:
         shutil.copy('/verif/known_findings.txt', out)
         env2 = dict(env, VERIF_DIR=out)
         alarms = []
-        for i in range(1, 21):
-            pr = 'C%02d' % i
-            r = subprocess.run(['/verif/bin/smtpverif','-repo',d,'-property',pr], env=env2, capture_output=True, text=True)
-            if r.returncode != 0:
-                alarms.append(pr)
-                for l in [l for l in r.stdout.splitlines() if l.startswith(('VIOLATED','UNDECIDED','ERROR'))][:3]:
-                    print('   ', pr, l[:260])
+        r = subprocess.run(['/verif/bin/smtpverif','-repo',d,'-property','all'], env=env2, capture_output=True, text=True)
+        for l in r.stdout.splitlines():
+            m = re.match(r'^== (C\d+): .* (\d+) violations', l)
+            if m and m.group(2) != '0':
+                alarms.append(m.group(1))
+        if alarms:
+            for l in [l for l in r.stdout.splitlines() if l.startswith(('VIOLATED','UNDECIDED','ERROR'))][:6]:
+                print('   ', l[:260])
         print(name, 'FALSE-ALARMS:' if alarms else 'quiet', ' '.join(alarms))
     finally:
         shutil.rmtree(d); shutil.rmtree(out)
